@@ -66,7 +66,8 @@ theorem ceChainLoop_len (layerLimit lzmaLimit : Int) (hl : 0 < layerLimit) (fuel
     · omega
     · cases getToken input with
       | none => simp only; omega
-      | some tok =>
+      | some st =>
+        obtain ⟨skipped, tok⟩ := st
         simp only
         have hne : (layerLimit != 0) = true := by simp; omega
         simp only [hne, if_true, Bool.true_and]
